@@ -2,6 +2,7 @@ import MokapotVerif.Wire
 import MokapotVerif.Model.Fallback
 import MokapotVerif.Model.FallbackTail
 import MokapotVerif.Model.FallbackFull
+import MokapotVerif.Model.FallbackDtype
 /-! Driver glue for `Model/Fallback.lean`. -/
 namespace Mk.Ops.Fallback
 open Mk V Mk.Fallback
@@ -157,6 +158,61 @@ def opPep : List V → Option V
       some (ofList ofInt (pepScores d col))
   | _ => none
 
+/-- `fbrank <desc> [stored score column]` → the ranking column of `assign_confidence` for a stored column
+(conversion to binary64, then negation when lower-is-better) -/
+def opRank : List V → Option V
+  | [d, col] => do
+      let d ← toBool? d
+      let col ← toList? toInt? col
+      some (ofList ofInt (entryRankTyped d col))
+  | _ => none
+
+/-- `fbdirstartcol <thr> [targets] [stored column of the named feature on the training rows]` → `[feat_pass desc]` -/
+def opDirStartCol : List V → Option V
+  | [t, ts, col] => do
+      let thr ← toRat? t
+      let ts ← toList? toBool? ts
+      let col ← toList? toInt? col
+      some (list [ofNat (dirStartCol thr ts col).1, ofBool (dirStartCol thr ts col).2])
+  | _ => none
+
+/-- `fbcast <significant digits> [integers]` → the integers rounded to that many binary digits (53: binary64, 24: binary32) -/
+def opCast : List V → Option V
+  | [p, xs] => do
+      let p ← toNat? p
+      let xs ← toList? toInt? xs
+      some (ofList ofInt (xs.map (roundBits p)))
+  | _ => none
+
+/-- `fbentrydescs <scoresGiven> [descs given by the caller] | none  [found directions] <n>` → the directions used by
+`assign_confidence` -/
+def opEntryDescs : List V → Option V
+  | [g, ds, found, n] => do
+      let g ← toBool? g
+      let found ← toList? toBool? found
+      let n ← toNat? n
+      let ds : Option (List Bool) ← (match ds with
+        | atom "none" => some none
+        | v => (toList? toBool? v).map some)
+      some (ofList ofBool (entryDescs g ds found n))
+  | _ => none
+
+/-- `fbthenrank <reset> <ensemble> [models] <thr> [colls] [reset scores] [ensemble scores]` → the ranking columns of
+`assign_confidence` on the pair returned by the tail of `brew`, one per collection | `reject-label` -/
+def opThenRank : List V → Option V
+  | [r, e, ms, t, cs, rs, es] => do
+      let r ← toBool? r
+      let e ← toBool? e
+      let ms ← toList? model? ms
+      let thr ← toRat? t
+      let cs ← toList? coll? cs
+      let rs ← toList? (toList? toInt?) rs
+      let es ← toList? (toList? toInt?) es
+      some (match brewThenRank r e ms thr cs { resetScores := rs, ensembleScores := es } with
+        | some out => ofList (ofList ofInt) out
+        | none => atom "reject-label")
+  | _ => none
+
 end Mk.Ops.Fallback
 
 namespace Mk.Ops
@@ -164,5 +220,6 @@ open Mk.Ops.Fallback
 def fallbackOps : List (String × (List V → Option V)) :=
   [("fbdecide", opDecide), ("fbpred", opPred), ("fbbest", opBest), ("fbtail", opTail),
    ("fbtailspec", opTailSpec), ("fbtotal", opTotal), ("fbentry", opEntry), ("fbdirstart", opDirStart),
-   ("fbfull", opFull), ("fbtailgspec", opTailGSpec), ("fbreset", opReset), ("fbpep", opPep)]
+   ("fbfull", opFull), ("fbtailgspec", opTailGSpec), ("fbreset", opReset), ("fbpep", opPep),
+   ("fbrank", opRank), ("fbdirstartcol", opDirStartCol), ("fbcast", opCast), ("fbthenrank", opThenRank), ("fbentrydescs", opEntryDescs)]
 end Mk.Ops
